@@ -563,7 +563,8 @@ Section WS.
     | None =>
         match resolve (w_fs w) (wsp s) i with
         | inr e => (w, inr e)
-        | inl m => (add_H w (mkH si m None None true), inl (length (w_hs w)))
+        (* Job.__init__(id_=m): _cached_statepoint = project._sp_cache[m] if present (a prefix resolves to a full id) *)
+        | inl m => (add_H w (mkH si m (alookup m (s_cache s)) None true), inl (length (w_hs w)))
         end
     end.
 
